@@ -976,6 +976,20 @@ func ruleC19NoOverride(r *Run) {
 					isCT = true
 				}
 			}
+			// taking the type away is overriding it too: a caller's choice must survive, also on the error path
+			if c, ok := in.(*ssa.Call); ok {
+				k, isK := "", false
+				if nm := calleeName(c); nm == "(net/http.Header).Del" && len(c.Call.Args) > 1 {
+					k, isK = constString(c.Call.Args[1])
+				} else if isBuiltin(c, "delete") && len(c.Call.Args) > 1 {
+					k, isK = constString(c.Call.Args[1])
+				}
+				if isK && strings.EqualFold(k, "Content-Type") {
+					n++
+					r.Check(rule, fmt.Sprintf("%s:removes Content-Type#%d", FuncName(f), n), w.InstrPos(in), false, "a renderer removes the Content-Type header without knowing who set it: a type the caller chose before calling the helper is lost (e.g. on an encoding failure)")
+					return
+				}
+			}
 			if !isCT {
 				return
 			}
